@@ -139,6 +139,8 @@ func judgeAsks(s *sut, r *request, f []string, all []*request) string {
 	clause := "authorizer-not-asked"
 	if len(got) > len(want) {
 		clause = "authorizer-asked-needlessly"
+	} else if len(got) == len(want) {
+		clause = "authorizer-target-differs" // the right number of check requests, sent to another target / with other settings
 	}
 	class := classify(s, r, all)
 	_, gotBy := extAuthzAskedBy(s.built, r)
